@@ -399,6 +399,7 @@ package parse
 //@   props C05 C19
 //@   requires treeOK(t)
 //@   noreturn
+//@   at call (*tree).errorfAt#0 assert[position-of-a-token-already-read;C19] t.lex.recv == old(t.lex.recv) && arg1 == ite(old(t.peekCount) > 0, old(t.token[t.peekCount-1].pos), old(t.token[0].pos))
 //@ func (*tree).unexpected
 //@   props C05 C19
 //@   requires treeOK(t) && 0 <= token.pos && token.pos <= len(t.lex.input)
